@@ -428,6 +428,44 @@ def lookup_remesh(ctx, mode="resize", after=2, bins=4):
         m._appendArrays(Y2)
 
 
+# --------------------------------------------------------------------------- 6b. a second run after reset()
+def lookup_after_reset(ctx, after=2, bins=3):
+    """a model left in an arbitrary consistent state by a previous run (non-zero accumulated change), then the real
+    reset() and the real setup() at an arbitrary start temperature, then growth-rate evaluations at arbitrary
+    temperatures: the table of the new run is within maxTempChange of the temperature at every use"""
+    Tn, Tl, Tt, mx, Tf = table_state_inputs(ctx)
+    Ts = ctx.real("T_restart", (500.0, 501.0))
+    Tnext = [Tn] + [ctx.real("T_now%d" % (k + 1), (500.0, 503.0)) for k in range(1, after)]
+    for v in [Ts] + Tnext:
+        ctx.assume(v > 0, "temperatures are positive (kelvin)")
+    t0 = seconds(ctx, "t0", (0.0, 1.0))
+    m, log, used = mk_binary(ctx, PrecTP(Ts), bins=bins)
+    m.constraints.maxTempChange = mx
+    set_table_state(ctx, m, bins, Tt, Tl, Tf)
+    m.reset()
+    m.setPBMParameters(cMin=1e-10, cMax=1e-9, bins=bins, minBins=2, maxBins=8)     # reset() re-creates default grids
+    m.pData.time[0] = t0
+    del used[:]
+    m.setup()
+    ctx.observe("dTemp", m.dTemp)
+    ctx.observe("T0", m.pData.temperature[0])
+    ctx.prove("one record after reset and setup", m.pData.n == 0 and len(m.pData.temperature) == 1)
+    ctx.prove("setup records the schedule at the start time", ctx.eq(m.pData.temperature[0], Ts))
+    prove_uses(ctx, used, mx, "setup after reset")
+    prove_invariant(ctx, m, Ts, mx, "after reset and setup")
+    for k in range(after):
+        Tk = Tnext[k]
+        del used[:]
+        Y = m.pData.copySlice(m.pData.n)
+        Y.time = np.array([t0 + (k + 1.0)])
+        Y.temperature = np.array([Tk])
+        growth, Y2 = m._growthRateBinary(Y)
+        prove_uses(ctx, used, mx, "steps after reset")
+        ctx.prove("equilibrium compositions were computed within maxTempChange of the current temperature [steps after reset]",
+                  ctx.all([within(ctx, Tk, Y2.xEqAlpha[0, 0, 0], mx), within(ctx, Tk, Y2.xEqBeta[0, 0, 0], mx)]))
+        m._appendArrays(Y2)
+
+
 # --------------------------------------------------------------------------- 7. incubation treatment
 class _NucStub:
     """stands in for the module kawin.precipitation.NucleationRate inside KWNBase while _calcNucleationRate runs
@@ -595,6 +633,10 @@ HARNESSES = [
             bounds={"size classes": "4 -> 2 / 5 / 4 (quick), 8 -> 2 / 10 / 8 (thorough)", "steps after the re-mesh": "2 (quick), 3 (thorough)"},
             params={"quick": [dict(mode="none"), dict(mode="resize"), dict(mode="append")],
                     "thorough": [dict(mode=mo, after=3, bins=8) for mo in ("none", "resize", "append")]}),
+    Harness("C13.lookup_after_reset", lookup_after_reset, functions=_FR + [PrecipitateBase.reset, PrecipitateModel.reset, PrecipitateModel.setPBMParameters],
+            assumptions=_A_TABLE + ["between reset() and setup() the user sets the size grid again (reset re-creates default grids) and may set the start time"],
+            stubs=_S_TAG, bounds={"size classes": "3 (quick), 6 (thorough)", "steps after the restart": "2 (quick), 3 (thorough)"},
+            params={"quick": [dict(after=2, bins=3)], "thorough": [dict(after=3, bins=6)]}),
     Harness("C13.incubation", incubation, functions=_FM + [PrecipitateBase._calcNucleationRate], assumptions=_A_SCHED + ["driving force > 0, impingement != 0 (the branch that reaches the incubation time)"],
             stubs=_S_TAG + ["module kawin.precipitation.NucleationRate as seen from KWNBase replaced by a recording stub while _calcNucleationRate runs; model._calcNucleationSites -> 1"],
             params={"quick": [dict(kind=k, prev=p) for k, p in (("const", "array2"), ("array2", "const"), ("func", "const"), ("const", "func"))],
